@@ -157,6 +157,25 @@ def run(ctx):
                     ctx.fail('`in` disagrees with name resolution', case, {'in': q in cont, 'find': exp})
             if any(g != exp for g in got):
                 ctx.fail('Chain[...] / input_tasks[...] resolve differently from _find_task_full_name', case, {'got': got, 'find': exp})
+        # a registry that GROWS between two look-ups: the answer always refers to the names registered now (a name that was unique can
+        # become ambiguous, a missing one can appear)
+        items = list(objs.items())
+        rng.shuffle(items)
+        it2 = InputTasks()
+        qs = rng.sample(gen_queries(rng, names), 3)
+        for k_, (nm, v) in enumerate(items):
+            it2[nm] = v
+            present = [x for x, _ in items[:k_ + 1]]
+            for q in qs:
+                exp = impl_find(q, present, True)
+                try:
+                    got = {'ok': [x for x, vv in objs.items() if vv is it2[q]][0]}
+                except KeyError as e:
+                    got = {'error': 'ambiguous' if 'Ambiguous' in str(e) else 'not_found'}
+                ctx.count('via_growing_registry')
+                if got != exp or (q in it2) != ('ok' in exp):
+                    ctx.fail('a look-up in a growing InputTasks registry does not reflect the names registered at that moment', 
+                             {'names': present, 'q': q, 'via': 'InputTasks, growing'}, {'got': got, 'in': q in it2, 'find': exp})
     run_class_names(ctx)
     run_dependants(ctx)
 
